@@ -25,6 +25,29 @@ TECH = {
  "C19": "runtime monitor: export content vs system snapshot, re-import, audit-hook file events",
  "C20": "runtime monitor: figure data (links / traces / lines) vs label-keyed reference",
 }
+
+TEXT = {
+ "C01": "Every operator call on the real code is judged against an exact label-keyed reference. Exhaustive over all ordered pairs of ordered dimension subsets of a 3-letter (quick) / 4-letter (thorough) universe x 7 operators x length patterns; values are tagged (result names the entries combined), dyadic (==), random reals (derived tolerance) and NaN-tainted (dependency sets). 'All real values' is approached by tagged values + identical executed line sequences across value regimes (trace equivalence), not proved.",
+ "C02": "Observed raise/warn outcome of check_mass_balance / check_flows vs an exact rational per-process balance on generated systems (self-loops, parallel/opposing flows, mixed dims, stocks with/without process, idle processes, no stocks, integer flows) with single-entry perturbations straddling the tolerance; the boundary itself is judged in the dyadic regime. Random exploration, not exhaustive.",
+ "C03": "Conservation identity checked on every compute() of all stock classes/solvers over random lifetime models, parameter shapes and unit/constant/uneven grids, plus accept/reject probes of the library's own balance check and 'compute keeps its driver'. Random exploration.",
+ "C04": "Relational: every observed operation is replayed on the real code with each participating array stored in every other dimension order (all k! x k! pairs up to 4 dims in the thorough tier) and must give the same entries under the same labels and the documented result order. Exhaustive over storage orders per operation configuration; configurations are a fixed list (thorough: all operand-dims pairs over 3 letters).",
+ "C05": "Every assignment judged against the pre-state model: dims kept, outside entries bit-identical, source summed by label, missing source dimension / wrong-shape ndarray rejected, nothing changed on failure, ndarray copied, no aliasing with an array source; all selector-kind assignments x rhs kinds + assignment histories.",
+ "C06": "Independent model of the key forms; exhaustive over all 3^n read and 4^n write selector-kind assignments (n=4 quick, 5 thorough) x length patterns x subset orders x key spellings, plus the must-raise classes, items_where and split.",
+ "C07": "Every reduction/cast/share call judged by label against exact marginals/broadcasts; exhaustive over kept/summed subsets, cast target orders, cumsum letters and share subsets for every storage order of 3 (quick) / 4 (thorough) dims, three spellings of dimensions; composition laws.",
+ "C08": "Invariants and equality (1e-11) with closed-form survival functions and independently computed Gauss-Lobatto rules on every sf/pdf read, using the parameters the model holds and the driver's by-label ground truth; all 9 shipped quadrature rules compared exhaustively; random models/grids/parameter shapes incl. exact age=lifetime ties.",
+ "C09": "Cohort-table identities (sums, zero above the diagonal, inflow*dt*survival, monotone, per-cohort conservation) on every DSM compute() over the C03 matrix. Random exploration.",
+ "C10": "Relational shadow runs: ID->SD (both solvers, fresh and shared lifetime model), SD->ID, manual==lapack, prescribed stock kept; normwise tolerance scaled by the condition number; ill-conditioned cases skipped and counted.",
+ "C11": "to_df judged by an independent reader of the produced frame; from_df judged on frames built by the driver from ground truth (unique cell values) over layouts x header styles x index placement x permutations x omitted singles x CSV round trip x memory layouts x item orders, plus a 40 000-item dimension. Random exploration over a structured space.",
+ "C12": "Fault injection at the input: every fault kind at several positions and combinations x 4 flag sets x 5 routes (from_df, set_values_from_df, CSV/Excel parameter readers, MFASystem.from_csv); expected outcome derived from the final frame by an independent reader; refused imports must leave the target bit-identical.",
+ "C13": "Global invariant monitor on every wrapper exit plus whole-pool scan after each step of random programs with ~30% deliberately ill-formed steps; must-raise rules for constructors, set_values, whole-array assignment, stock and lifetime-model constructors.",
+ "C14": "Lock-step ordered-list model on every DimensionSet/Dimension call; exhaustive over all ordered pairs of ordered subsets of 4 (quick) / 5 (thorough) letters x 8 binary operators; random in-place/out-of-place histories with independence probes and arrays built from the sets.",
+ "C15": "Deep input snapshots (arrays, dimension sets, ndarrays, data frames, stocks, systems, plotters) compared after every non-in-place call; shares-memory/write-through and dims-edit probes on results; pool-wide aliasing scan over random programs; frames, system building, export and plotting workloads.",
+ "C16": "Relational variant runs: every truncation point, linear combinations, scaling, all unit-impulse responses predicting f(x), every label slice alone, calendar shifts, impulse = survival column x interval length; inflow-driven at 1e-12*n_t, stock-driven condition-scaled.",
+ "C17": "History monitor: fresh-twin comparison after every compute() in random sequences of driver writes / set_prms / reads / computes (incl. all-zero drivers), compute twice, and MFASystem scenario loops over stocks built from definitions (5 scenarios each) plus the shipped example system.",
+ "C18": "Attribute-by-attribute comparison of systems built through the helpers and through from_csv / from_excel / from_data_reader from files the driver writes (orientations, headers, sheets), refusal of 14 kinds of ill-formed definitions, hostile and own-letter labels in dimension files.",
+ "C19": "Export content (numpy/pandas dict, pickle, CSV) compared with the system snapshot by unique values, re-import through an independent reader and from_df, audit-hook file events (one file per array, inside the directory), system unchanged, MFADefinition.to_dfs cell by cell; hand-assembled systems and non-contiguous arrays included.",
+ "C20": "Figure data read back from plotly/matplotlib objects and compared with a label-keyed reference: Sankey link multiset and node labels under slices, exclusions, colour splits and shuffled process dictionaries; array plotters for every assignment of 1-3 dims to x/subplot/line roles, names vs letters, x arrays, chart types.",
+}
 checks = []
 na = []
 for pid in sorted(props):
@@ -42,7 +65,7 @@ for pid in sorted(props):
         "replay_cmd_template": f"./vcheck {pid} --replay {{path}}",
         "engine": "vmon",
         "level_claimed": {"category": level,
-            "text": "Held on the executions listed in the evidence file: every judged event is an oracle evaluation on the real code; the named finite sub-spaces are enumerated completely, the rest is seeded random workload. Not a proof.",
+            "text": TEXT[pid] + " Held on the executions listed in the evidence file; not a proof.",
             "design_ref": f"DESIGN.md section 5 ({pid})"},
         "level_note": "trusted base: CPython, numpy, pandas, scipy and the reference models in vmon/model.py; says nothing about configurations the workload never produced",
         "technique": TECH[pid],
